@@ -33,8 +33,9 @@ def sorted_scope_items(scope_dict):
         return sorted(
             scope_dict.items(), key=lambda pair: _universal_sort_key(*pair[0])
         )
-    except TypeError:
-        # Scope values only have to be hashable and equatable, not orderable.
+    except Exception:
+        # Scope values only have to be hashable and equatable, not orderable:
+        # comparing them may raise anything (TypeError, decimal.InvalidOperation, ...).
         return sorted(scope_dict.items(), key=lambda pair: _fallback_sort_key(*pair[0]))
 
 
